@@ -232,11 +232,13 @@ func Fail(t fataler, f Failure) {
 
 // ---------------------------------------------------------------- watchdog + trace
 
-var inflight atomic.Value // string: JSON of the case being executed ("" = none)
+type inflightDesc struct{ fn func() string } // fn == nil: no case in flight
+
+var inflight atomic.Value // inflightDesc: describes the case being executed (lazily)
 var inflightSeq atomic.Int64
 
 func init() {
-	inflight.Store("")
+	inflight.Store(inflightDesc{})
 }
 
 // SetInflight records the case about to be executed (for the watchdog and, when
@@ -246,14 +248,14 @@ func SetInflight(desc func() string) {
 		fmt.Fprintln(traceFile, desc())
 	}
 	if watchdogOn {
-		inflight.Store(desc())
+		inflight.Store(inflightDesc{desc})
 		inflightSeq.Add(1)
 	}
 }
 
 func ClearInflight() {
 	if watchdogOn {
-		inflight.Store("")
+		inflight.Store(inflightDesc{})
 		inflightSeq.Add(1)
 	}
 }
@@ -279,17 +281,21 @@ func StartWatchdog(id string, limit time.Duration) {
 		for {
 			time.Sleep(500 * time.Millisecond)
 			seq := inflightSeq.Load()
-			cur := inflight.Load().(string)
+			curFn := inflight.Load().(inflightDesc).fn
 			var ms runtime.MemStats
-			if cur != "" {
+			if curFn != nil {
 				runtime.ReadMemStats(&ms)
 			}
 			if seq != lastSeq {
 				lastSeq = seq
 				since = time.Now()
 			}
-			stuck := cur != "" && time.Since(since) > limit
-			big := cur != "" && ms.HeapAlloc > 3<<30
+			stuck := curFn != nil && time.Since(since) > limit
+			big := curFn != nil && ms.HeapAlloc > 3<<30
+			cur := ""
+			if stuck || big {
+				cur = curFn()
+			}
 			if stuck || big {
 				name := "suspect_" + id
 				if sh := shard(); sh != "" {
